@@ -23,8 +23,31 @@ static GLOBAL: alloc::Counting = alloc::Counting;
 
 use std::collections::BTreeMap;
 
+/// With VERIF_LOG set, the library's own log output (error / warn / debug) is printed: a debugging aid.
+struct StderrLog;
+impl log::Log for StderrLog {
+    fn enabled(&self, m: &log::Metadata) -> bool {
+        m.target().starts_with("bevy_replicon")
+    }
+    fn log(&self, r: &log::Record) {
+        if self.enabled(r.metadata()) {
+            println!("      [{} {}] {}", r.level(), r.target(), r.args());
+        }
+    }
+    fn flush(&self) {}
+}
+static LOGGER: StderrLog = StderrLog;
+
 fn main() {
     let args: Vec<String> = std::env::args().collect();
+    if let Ok(l) = std::env::var("VERIF_LOG") {
+        let _ = log::set_logger(&LOGGER);
+        log::set_max_level(match l.as_str() {
+            "debug" => log::LevelFilter::Debug,
+            "trace" => log::LevelFilter::Trace,
+            _ => log::LevelFilter::Warn,
+        });
+    }
     if std::env::var("SHOWPANIC").is_err() {
         sim::silent_panics();
     }
